@@ -561,6 +561,116 @@ impl Stream for Corpus
 	}
 }
 
+/// the bundled libraries (`core:` / `vendor:` modules) as part of a module
+/// set: the linked program defines their functions like anybody else's
+struct BundledLibraries;
+const LIBRARIES: &[(&str, &str)] = &[
+	("core:text/char.pn", ""),
+	("core:text/char.pn", "\tif is_control_char(7) == true\n\t{\n\t\tr = 1;\n\t}\n"),
+	("vendor:libc/ctype.pn", ""),
+	("vendor:libc/ctype.pn", "\tif is_digit('7') == true\n\t{\n\t\tr = 1;\n\t}\n"),
+	("vendor:libc/ctype.pn", "\tif is_alpha('7') == true\n\t{\n\t\tr = 1;\n\t}\n\tif is_upper('A') == true\n\t{\n\t\tr = r + 2;\n\t}\n"),
+	("vendor:libc/stdlib.pn", ""),
+	("vendor:libc/string.pn", ""),
+	("vendor:wasm4/wasm4.pn", ""),
+];
+impl Stream for BundledLibraries
+{
+	fn name(&self) -> String
+	{
+		"bundled-libraries".into()
+	}
+	fn count(&self, _tier: Tier) -> u64
+	{
+		LIBRARIES.len() as u64 * 2
+	}
+	fn exhaustive(&self) -> bool
+	{
+		true
+	}
+	fn run(&self, idx: u64, _c: &mut Choices, ctx: &RunCtx) -> CaseOut
+	{
+		use penne::alpha::common::{Declaration, DeclarationFlag};
+		let mut out = CaseOut::default();
+		out.key = idx;
+		out.nontrivial = true;
+		let (lib, calls) = LIBRARIES[(idx / 2) as usize];
+		let library_first = idx % 2 == 1;
+		let text = match penne::alpha::included::find(lib).and_then(|(e, _)| e.as_file()).and_then(|f| f.contents_utf8())
+		{
+			Some(t) => t.to_string(),
+			None =>
+			{
+				out.discarded = Some(format!("{} is not bundled", lib));
+				return out;
+			}
+		};
+		let main = format!("import \"{}\";\n\nfn main() -> i32\n{{\n\tvar r: i32 = 0;\n{}\treturn: r\n}}\n", lib, calls);
+		let mut files = vec![("main.pn".to_string(), main), (lib.to_string(), text.clone())];
+		if library_first
+		{
+			files.reverse();
+		}
+		out.class(format!("library:{}", lib));
+		out.class(if library_first { "order:library first" } else { "order:library last" });
+		let o = alpha::compile_modules(
+			&files,
+			alpha::Options {
+				want_ir: true,
+				link: true,
+				..Default::default()
+			},
+		);
+		if let Some(e) = &o.internal_error
+		{
+			out.fail(format!("internal error {}", e.chars().take(50).collect::<String>()), json!({"files": crate::c02::files_json(&files)}));
+		}
+		else if !o.ok
+		{
+			// (whether such a set is accepted is not this property's subject)
+			out.discarded = Some(format!("rejected {:?}", o.codes));
+		}
+		else
+		{
+			let decls = penne::alpha::parser::parse(penne::alpha::lexer::lex(&text, lib));
+			let mut infos = vec![FnInfo {
+				name: "main".into(),
+				has_body: true,
+				visible: true,
+			}];
+			for d in &decls
+			{
+				if let Declaration::Function { name, flags, .. } = d
+				{
+					if flags.contains(DeclarationFlag::Public)
+					{
+						infos.push(FnInfo {
+							name: name.name.clone(),
+							has_body: true,
+							visible: true,
+						});
+					}
+				}
+			}
+			out.count("library_functions_with_a_body", infos.len() as u64 - 1);
+			for (i, ir) in o.module_irs.iter().enumerate()
+			{
+				verify_ir(ir, &format!("module {}", files[i].0), true, &mut out);
+			}
+			if let Some(linked) = &o.linked_ir
+			{
+				verify_ir(linked, "linked", true, &mut out);
+				check_definitions(linked, &infos, "linked", &mut out);
+			}
+		}
+		if ctx.want_sample
+		{
+			out.sample = Some(json!({"files": files.iter().map(|(n, _)| n.clone()).collect::<Vec<_>>(), "calls": calls}));
+		}
+		out
+	}
+}
+
 impl Check for C03
 {
 	fn id(&self) -> &'static str
@@ -584,6 +694,6 @@ impl Check for C03
 	}
 	fn streams(&self) -> Vec<Box<dyn Stream>>
 	{
-		vec![Box::new(Generated), Box::new(SplitModules), Box::new(Corpus)]
+		vec![Box::new(Generated), Box::new(SplitModules), Box::new(Corpus), Box::new(BundledLibraries)]
 	}
 }
